@@ -105,6 +105,21 @@ theorem schedule_self_twice :
     (run (Handoff.init false [[.sched 0, .yield0]] [[.schedule 0]])
       [2, 2, 2, 2, 2, 0, 0, 0, 0, 0, 0, 0, 0, 0, 0, 0, 0, 0, 0]).ready = [0, 0] := by decide
 
+/-- **Defect of the code outside this model's reachable states (reproduced on the real classes, see
+`harness/c07.py`, case kind "hubrace").**  `schedule()` promises that it "will not schedule a task to run multiple times",
+and `ScheduleTask` exists so that "the Task is only ever *really* scheduled from the scheduler thread".  With the threaded
+select hub that is not so: the hub thread's `_return` calls `fast_schedule` itself.  `hubRaceState`: user task 0 is parked
+in the threaded hub (user tasks that wait in the hub are not part of `Reachable` here), its descriptor has just become
+ready — the hub thread is at `_return(0)` → `fast_schedule(0)` — and a ScheduleTask for it (task 1, from some thread's
+`schedule(0)`) is queued.  Interleaving: scheduler thread `run_len, cyc_pop, st_contains` (not in `ready`), hub thread
+`fs_assert` (passes), scheduler thread `fs_assert` (passes), hub thread `fs_append`, scheduler thread `fs_appendleft`:
+the task is in the ready queue twice. -/
+def hubRaceState : State :=
+  { threaded := true, nUsers := 1, tasks := [.user [], .st 0 false], ready := [1], s := .runLen,
+    h := .hub (.ret 0 .assert), fs := [] }
+
+theorem schedule_hub_race_defect : (run hubRaceState [0, 0, 0, 1, 0, 1, 0]).ready = [0, 0] := by decide
+
 /-- **no wake is lost.**  Whenever a ScheduleTask's slice ends (the scheduler thread returns to its loop from
 `ScheduleTask.run`), the task it was created for is in the ready queue — either it was there already, or it has just
 been put at the head.  (The ScheduleTask itself cannot be lost: the foreign thread's `schedule()` returns only after
